@@ -557,6 +557,13 @@ Proof.
       destruct e3; [injection H as <- <- <-; split; [exact HP3 | exact HI3] |].
       destruct (process_frags C c3 rest) as [[c4 o4] e4] eqn:Hp. injection H as <- <- <-.
       eapply Hrest; eauto.
+    + destruct (process_frags C c1 rest) as [[c4 o4] e4] eqn:Hp. injection H as <- <- <-.
+      assert (HPr : HPost Fin g c c1 (resend c1)).
+      { replace (resend c1) with ([] ++ resend c1) by reflexivity. eapply HPost_trans; [exact HP1 |].
+        pose proof (HPost_refl Fin g c1 HS1) as [S O L F]. constructor; auto.
+        unfold resend. destruct (last_flight c1) as [rs |] eqn:Hlf; [| constructor].
+        rewrite sent_of_send. apply (s_flight _ _ HS1 rs Hlf). }
+      eapply Hrest; eauto.
 Qed.
 
 Definition rec_ok (Fin : T -> Prop) (r : record T) : Prop := rgood r /\ forall vd, fin_of_record r vd -> Fin vd.
